@@ -1,6 +1,1294 @@
-//! C14: harness commands for property C14 (stub).
+//! C14: user features act on exactly their cluster range with their value.
+//! Sub-commands (line oriented):
+//!   new                      Feature::new over the six range forms (boundary + exhaustive small)
+//!   parse    --seed --n      Feature::from_str on grammar-generated and byte-mutated strings
+//!   setmasks --seed --n      the real hb_buffer_t::set_masks through the hook
+//!   plan     --seed --n      feature infos -> compiled mask fields of real plans (hook)
+//!   api      --seed --values all|few    implementation-level predicate on generated fonts
+//!   corpus   --seed --per-font N        the same predicate on single/alternate features of corpus fonts
+//!   witness  FORM A B C      one Feature::new coverage fact (known-finding replay)
+use crate::shp;
+use crate::util::*;
+use rustybuzz::ttf_parser::Tag;
+use rustybuzz::verif::feature as hook;
+use rustybuzz::{Direction, Face, Feature, UnicodeBuffer};
+use std::str::FromStr;
 
-pub fn run(_args: &[String]) {
-    eprintln!("c14: not implemented");
-    std::process::exit(2);
+pub fn run(args: &[String]) {
+    quiet_panics();
+    match args.get(0).map(|s| s.as_str()) {
+        Some("consts") => consts(),
+        Some("new") => new_cmd(),
+        Some("parse") => parse_cmd(args),
+        Some("setmasks") => setmasks_cmd(args),
+        Some("plan") => plan_cmd(args),
+        Some("api") => api_cmd(args),
+        Some("corpus") => corpus_cmd(args),
+        Some("witness") => witness_cmd(args),
+        Some("dumpfont") => dumpfont_cmd(args),
+        _ => {
+            eprintln!("c14 consts|new|parse|setmasks|plan|api|corpus|witness");
+            std::process::exit(2)
+        }
+    }
+}
+
+fn consts() {
+    println!("consts max_bits={} max_value={} defined={}", hook::MAX_BITS, hook::MAX_VALUE, hook::GLYPH_FLAG_DEFINED);
+}
+
+// ------------------------------------------------------------------------------------------------
+// Feature::new
+// forms: 0 a..b   1 a..=b   2 ..b   3 ..=b   4 a..   5 ..
+
+fn feature_new(form: u8, a: usize, b: usize, value: u32) -> Feature {
+    let t = Tag::from_bytes(b"test");
+    match form {
+        0 => Feature::new(t, value, a..b),
+        1 => Feature::new(t, value, a..=b),
+        2 => Feature::new(t, value, ..b),
+        3 => Feature::new(t, value, ..=b),
+        4 => Feature::new(t, value, a..),
+        _ => Feature::new(t, value, ..),
+    }
+}
+
+fn bounds() -> Vec<usize> {
+    let mut v: Vec<u128> = vec![0, 1, 2, 3, (1 << 31) - 1, 1 << 31, (1u128 << 32) - 2, (1u128 << 32) - 1, 1u128 << 32, (1u128 << 32) + 1];
+    v.push(usize::MAX as u128 - 1);
+    v.push(usize::MAX as u128);
+    v.into_iter().filter(|x| *x <= usize::MAX as u128).map(|x| x as usize).collect()
+}
+
+fn new_cmd() {
+    let bs = bounds();
+    let mut cases: Vec<(u8, usize, usize)> = Vec::new();
+    for form in 0..2u8 {
+        for &a in &bs {
+            for &b in &bs {
+                cases.push((form, a, b));
+            }
+        }
+        for a in 0..=6usize {
+            for b in 0..=6usize {
+                cases.push((form, a, b));
+            }
+        }
+    }
+    for form in 2..5u8 {
+        for &x in &bs {
+            cases.push((form, x, x));
+        }
+        for x in 0..=6usize {
+            cases.push((form, x, x));
+        }
+    }
+    cases.push((5, 0, 0));
+    for (form, a, b) in cases {
+        match catch(move || feature_new(form, a, b, 1)) {
+            Ok(f) => println!("new {} {} {} -> {} {}", form, a, b, f.start, f.end),
+            Err(e) => println!("new {} {} {} -> panic {}", form, a, b, e),
+        }
+    }
+}
+
+fn witness_cmd(args: &[String]) {
+    // witness FORM A B C : does the implementation's Feature::new(range) act on cluster C? (through the
+    // real set_masks), and does the Rust range contain C?
+    let form: u8 = args.get(1).and_then(|s| s.parse().ok()).unwrap_or(0);
+    let a: usize = args.get(2).and_then(|s| s.parse().ok()).unwrap_or(0);
+    let b: usize = args.get(3).and_then(|s| s.parse().ok()).unwrap_or(0);
+    let c: u32 = args.get(4).and_then(|s| s.parse().ok()).unwrap_or(0);
+    let f = feature_new(form, a, b, 1);
+    let acted = hook::set_masks(&[(c, 0)], 0x10, 0x10, f.start, f.end)[0] != 0;
+    println!("witness form={} a={} b={} c={} start={} end={} acts={} in_range={}", form, a, b, c, f.start, f.end, acted as u8, in_range(form, a, b, c as usize) as u8);
+}
+
+fn in_range(form: u8, a: usize, b: usize, c: usize) -> bool {
+    use std::ops::RangeBounds;
+    match form {
+        0 => (a..b).contains(&c),
+        1 => (a..=b).contains(&c),
+        2 => (..b).contains(&c),
+        3 => (..=b).contains(&c),
+        4 => (a..).contains(&c),
+        _ => (..).contains(&c),
+    }
+}
+
+// ------------------------------------------------------------------------------------------------
+// Feature::from_str
+
+fn hex(b: &[u8]) -> String {
+    if b.is_empty() {
+        return "-".to_string();
+    }
+    b.iter().map(|x| format!("{:02x}", x)).collect()
+}
+
+fn gen_number(r: &mut Rng) -> String {
+    match r.below(14) {
+        0 => "".to_string(),
+        1 => format!("{}", r.below(10)),
+        2 => format!("{}", r.below(300)),
+        3 => format!("-{}", r.below(5)),
+        4 => format!("+{}", r.below(50)),
+        5 => format!("00{}", r.below(100)),
+        6 => ["2147483647", "2147483648", "-2147483648", "-2147483649", "4294967295", "4294967296", "4294967294", "99999999999", "-1", "-0", "+0", "-", "+"][r.below(13) as usize].to_string(),
+        7 => format!("{}", r.next() % (1u64 << 33)),
+        8 => format!("{}", r.below(1 << 31)),
+        _ => format!("{}", r.below(8)),
+    }
+}
+
+fn gen_tag(r: &mut Rng) -> String {
+    const CH: &[u8] = b"abcdefghijklmnopqrstuvwxyzABCDEFGHIJKLMNOPQRSTUVWXYZ0123456789_";
+    let n = match r.below(12) {
+        0 => 0,
+        1 => 5,
+        2 => 1,
+        3 => 2,
+        4 => 3,
+        _ => 4,
+    };
+    if n == 4 && r.chance(1, 2) {
+        return ["kern", "liga", "aalt", "salt", "ss01", "smcp", "calt", "on", "off"][r.below(9) as usize].to_string();
+    }
+    (0..n).map(|_| CH[r.below(CH.len() as u64) as usize] as char).collect()
+}
+
+fn gen_spaces(r: &mut Rng) -> String {
+    match r.below(8) {
+        0 => " ".to_string(),
+        1 => "\t ".to_string(),
+        2 => "\n".to_string(),
+        3 => "\x0c\r".to_string(),
+        _ => String::new(),
+    }
+}
+
+fn gen_feature_string(r: &mut Rng) -> String {
+    let mut s = String::new();
+    match r.below(6) {
+        0 => s.push('+'),
+        1 => s.push('-'),
+        _ => {}
+    }
+    s += &gen_spaces(r);
+    let q = match r.below(8) {
+        0 => Some('\''),
+        1 => Some('"'),
+        _ => None,
+    };
+    if let Some(q) = q {
+        s.push(q);
+    }
+    s += &gen_tag(r);
+    if let Some(q) = q {
+        match r.below(10) {
+            0 => {}
+            1 => s.push(if q == '"' { '\'' } else { '"' }),
+            _ => s.push(q),
+        }
+    }
+    s += &gen_spaces(r);
+    match r.below(10) {
+        0 => s += "[]",
+        1 => s += "[:]",
+        2 => s += &format!("[{}]", gen_number(r)),
+        3 => s += &format!("[{}:]", gen_number(r)),
+        4 => s += &format!("[:{}]", gen_number(r)),
+        5 => s += &format!("[{}:{}]", gen_number(r), gen_number(r)),
+        6 => s += &format!("[{};{}]", gen_number(r), gen_number(r)),
+        _ => {}
+    }
+    match r.below(12) {
+        0 => s += &format!("={}", gen_number(r)),
+        1 => s += "=on",
+        2 => s += "=off",
+        3 => s += ["=oN", "=OFF", "=oFf", "=o", "=of", "=onn", "= on", "=-on", "on", " off", "=+off"][r.below(11) as usize],
+        4 => s += &gen_number(r),
+        5 => s += &format!("={}", r.below(300)),
+        6 => s += &format!(" {}", gen_number(r)),
+        _ => {}
+    }
+    s += &gen_spaces(r);
+    if r.chance(1, 25) {
+        s.push(['x', ']', '=', ',', '\u{b}', '\u{e9}'][r.below(6) as usize]);
+    }
+    s
+}
+
+fn mutate(r: &mut Rng, s: &str) -> String {
+    const INTERESTING: &[u8] = b"[]:;=+-'\" \t\n\x0b\x0c\r_09azAZ,.onf\x00\x7f";
+    let mut b = s.as_bytes().to_vec();
+    let k = 1 + r.below(3);
+    for _ in 0..k {
+        let pos = r.below(b.len() as u64 + 1) as usize;
+        let byte = if r.chance(3, 4) { INTERESTING[r.below(INTERESTING.len() as u64) as usize] } else { r.below(256) as u8 };
+        match r.below(4) {
+            0 if pos < b.len() => b[pos] = byte,
+            1 => b.insert(pos, byte),
+            2 if pos < b.len() => {
+                b.remove(pos);
+            }
+            _ if pos < b.len() => {
+                let c = b[pos];
+                b.insert(pos, c)
+            }
+            _ => b.push(byte),
+        }
+    }
+    String::from_utf8_lossy(&b).to_string()
+}
+
+fn parse_one(s: &str) {
+    let s2 = s.to_string();
+    let res = catch(move || Feature::from_str(&s2).ok());
+    match res {
+        Ok(Some(f)) => println!("parse {} -> {} {} {} {}", hex(s.as_bytes()), f.tag.0, f.value, f.start, f.end),
+        Ok(None) => println!("parse {} -> none", hex(s.as_bytes())),
+        Err(e) => println!("parse {} -> panic {}", hex(s.as_bytes()), e),
+    }
+}
+
+fn parse_cmd(args: &[String]) {
+    let seed = arg_u64(args, "--seed", 1);
+    let n = arg_u64(args, "--n", 2000);
+    // the crate's own 20 test strings, the documented forms and some fixed edge cases
+    for s in [
+        "kern", "+kern", "-kern", "kern=0", "kern=1", "kern=2", "kern[]", "kern[:]", "kern[5:]", "kern[:5]", "kern[3:5]", "kern[3]",
+        "kern[3:5]=2", "kern[3;5]=2", "kern[:-1]", "kern[-1]", "kern=on", "kern=off", "kern=oN", "kern=oFf", "aalt=2", "aalt[3:5]=2",
+        "", " ", "+", "-", "=1", "[1]", "k", "ke rn", "kern ", " kern", "'kern'", "\"kern\"", "'kern\"", "'kern", "kern'", "kern[", "kern]",
+        "kern[1", "kern[1:2", "kern[1:2]]", "kern[1:2]=", "kern=", "kern==1", "kern=1 1", "kern=1x", "kern 1", "kern[0:1]", "kern[0:0]",
+        "kern[2:1]", "kern[4294967295]", "kern[2147483647]", "kern[2147483648]", "kern[-2147483648]", "kern[0:4294967295]", "kern[-:5]",
+        "kern[+:5]", "kern[+3:+5]", "kern[3:5]on", "kern[3:5] off", "kern=-1", "kern=4294967295", "kern=2147483647", "kern=-2147483648",
+        "kern=99999999999", "kerning", "ke_n", "k\u{e9}rn", "kern\u{b}", "kern[1]\u{b}", "kern = 1", "kern =1", "kern= 1", "-kern=1",
+        "+kern=0", "- kern", "--kern", "kern[ 1]", "kern[1 ]", "kern[1: 2]", "kern [1]", "kern[1] =2", "kern[1]= 2", "kern=on1", "kern=1on",
+        "on", "off", "=on", "kern=\ton", "kern=o n",
+    ] {
+        parse_one(s);
+    }
+    let mut r = Rng::new(seed);
+    for i in 0..n {
+        let s = gen_feature_string(&mut r);
+        if i % 3 == 2 {
+            let m = mutate(&mut r, &s);
+            parse_one(&m);
+        } else {
+            parse_one(&s);
+        }
+    }
+}
+
+// ------------------------------------------------------------------------------------------------
+// set_masks
+
+fn rand_cluster(r: &mut Rng) -> u32 {
+    match r.below(12) {
+        0 => u32::MAX,
+        1 => u32::MAX - 1,
+        2 => 1 << 31,
+        3 => r.next() as u32,
+        _ => r.below(9) as u32,
+    }
+}
+
+fn field_mask(shift: u32, bits: u32) -> u32 {
+    (((1u64 << (shift + bits)) - (1u64 << shift)) & 0xFFFF_FFFF) as u32
+}
+
+fn setmasks_cmd(args: &[String]) {
+    let seed = arg_u64(args, "--seed", 1);
+    let n = arg_u64(args, "--n", 2000);
+    let mut r = Rng::new(seed);
+    for _ in 0..n {
+        let len = r.below(10) as usize;
+        let infos: Vec<(u32, u32)> = (0..len)
+            .map(|_| {
+                let m = match r.below(4) {
+                    0 => 0,
+                    1 => u32::MAX,
+                    2 => 0x8000_0000,
+                    _ => r.next() as u32,
+                };
+                (rand_cluster(&mut r), m)
+            })
+            .collect();
+        let shift = r.below(32) as u32;
+        let bits = r.below(9) as u32;
+        let mask = match r.below(8) {
+            0 => 0,
+            1 => r.next() as u32,
+            2 => u32::MAX,
+            _ => field_mask(shift, bits.min(32 - shift)),
+        };
+        let value = match r.below(5) {
+            0 => r.next() as u32,
+            1 => 0,
+            _ => (r.below(300) as u32).wrapping_shl(shift),
+        };
+        let (start, end) = match r.below(8) {
+            0 => (0, u32::MAX),
+            1 => (0, u32::MAX - 1),
+            2 => (1, u32::MAX),
+            3 => (u32::MAX, u32::MAX),
+            4 => (rand_cluster(&mut r), rand_cluster(&mut r)),
+            _ => {
+                let a = r.below(9) as u32;
+                (a, a + r.below(6) as u32)
+            }
+        };
+        let inf2 = infos.clone();
+        let res = catch(move || hook::set_masks(&inf2, value, mask, start, end));
+        let ins: Vec<String> = infos.iter().map(|(c, m)| format!("{}:{}", c, m)).collect();
+        let ins = if ins.is_empty() { "-".to_string() } else { ins.join(",") };
+        match res {
+            Ok(o) => {
+                let os: Vec<String> = o.iter().map(|m| m.to_string()).collect();
+                println!("sm {} {} {} {} {} -> {}", value, mask, start, end, ins, if os.is_empty() { "-".to_string() } else { os.join(",") })
+            }
+            Err(e) => println!("sm {} {} {} {} {} -> panic {}", value, mask, start, end, ins, e),
+        }
+    }
+}
+
+// ------------------------------------------------------------------------------------------------
+// generated fonts (private minimal sfnt writer: head hhea maxp hmtx cmap GSUB GPOS)
+
+#[derive(Clone, Debug)]
+pub enum Kind {
+    /// SingleSubstFormat1 on `glyphs` with this delta
+    Single { glyphs: Vec<u16>, delta: i16 },
+    /// AlternateSubstFormat1: for glyph g the alternates are `first(g) .. first(g)+count`
+    Alt { glyphs: Vec<u16>, firsts: Vec<u16>, count: u16 },
+    /// GPOS SinglePosFormat1: x_advance += adv
+    Pos { glyphs: Vec<u16>, adv: i16 },
+}
+
+#[derive(Clone, Debug)]
+pub struct Feat {
+    pub tag: [u8; 4],
+    pub kind: Kind,
+}
+
+struct W(Vec<u8>);
+impl W {
+    fn u16(&mut self, v: u16) {
+        self.0.extend_from_slice(&v.to_be_bytes());
+    }
+    fn i16(&mut self, v: i16) {
+        self.0.extend_from_slice(&v.to_be_bytes());
+    }
+    fn u32(&mut self, v: u32) {
+        self.0.extend_from_slice(&v.to_be_bytes());
+    }
+    fn tag(&mut self, t: &[u8; 4]) {
+        self.0.extend_from_slice(t);
+    }
+    fn set16(&mut self, at: usize, v: usize) {
+        assert!(v <= 0xFFFF, "offset overflow");
+        self.0[at..at + 2].copy_from_slice(&(v as u16).to_be_bytes());
+    }
+}
+
+fn coverage(w: &mut W, glyphs: &[u16]) {
+    let mut g = glyphs.to_vec();
+    g.sort();
+    w.u16(1);
+    w.u16(g.len() as u16);
+    for x in g {
+        w.u16(x);
+    }
+}
+
+fn subtable(kind: &Kind) -> (u16, Vec<u8>) {
+    let mut w = W(Vec::new());
+    match kind {
+        Kind::Single { glyphs, delta } => {
+            w.u16(1);
+            w.u16(6);
+            w.i16(*delta);
+            coverage(&mut w, glyphs);
+            (1, w.0)
+        }
+        Kind::Alt { glyphs, firsts, count } => {
+            // sort by glyph (coverage order)
+            let mut idx: Vec<usize> = (0..glyphs.len()).collect();
+            idx.sort_by_key(|i| glyphs[*i]);
+            w.u16(1);
+            let cov_at = w.0.len();
+            w.u16(0);
+            w.u16(glyphs.len() as u16);
+            let offs_at = w.0.len();
+            for _ in 0..glyphs.len() {
+                w.u16(0);
+            }
+            for (k, i) in idx.iter().enumerate() {
+                let here = w.0.len();
+                w.set16(offs_at + 2 * k, here);
+                w.u16(*count);
+                for a in 0..*count {
+                    w.u16(firsts[*i] + a);
+                }
+            }
+            let here = w.0.len();
+            w.set16(cov_at, here);
+            coverage(&mut w, glyphs);
+            (3, w.0)
+        }
+        Kind::Pos { glyphs, adv } => {
+            w.u16(1);
+            w.u16(8);
+            w.u16(0x0004);
+            w.i16(*adv);
+            coverage(&mut w, glyphs);
+            (1, w.0)
+        }
+    }
+}
+
+/// One layout table (GSUB or GPOS): script DFLT with a default LangSys listing every feature; feature i
+/// owns lookup i.
+fn layout_table(feats: &[&Feat]) -> Vec<u8> {
+    let mut order: Vec<usize> = (0..feats.len()).collect();
+    order.sort_by_key(|i| feats[*i].tag);
+    let mut w = W(Vec::new());
+    w.u16(1);
+    w.u16(0);
+    w.u16(10); // script list
+    let fl_at = w.0.len();
+    w.u16(0);
+    let ll_at = w.0.len();
+    w.u16(0);
+    // ScriptList @10
+    w.u16(1);
+    w.tag(b"DFLT");
+    w.u16(8);
+    // Script @18: defaultLangSys at +4
+    w.u16(4);
+    w.u16(0);
+    // LangSys
+    w.u16(0);
+    w.u16(0xFFFF);
+    w.u16(feats.len() as u16);
+    for i in 0..feats.len() {
+        w.u16(i as u16);
+    }
+    // FeatureList (sorted by tag; feature record k -> lookup order[k])
+    let fl = w.0.len();
+    w.set16(fl_at, fl);
+    w.u16(feats.len() as u16);
+    let rec_at = w.0.len();
+    for k in 0..feats.len() {
+        w.tag(&feats[order[k]].tag);
+        w.u16(0);
+        let _ = k;
+    }
+    for k in 0..feats.len() {
+        let here = w.0.len() - fl;
+        w.set16(rec_at + 6 * k + 4, here);
+        w.u16(0);
+        w.u16(1);
+        w.u16(order[k] as u16);
+    }
+    // LookupList
+    let ll = w.0.len();
+    w.set16(ll_at, ll);
+    w.u16(feats.len() as u16);
+    let lo_at = w.0.len();
+    for _ in 0..feats.len() {
+        w.u16(0);
+    }
+    for (i, f) in feats.iter().enumerate() {
+        let here = w.0.len() - ll;
+        w.set16(lo_at + 2 * i, here);
+        let (ty, st) = subtable(&f.kind);
+        w.u16(ty);
+        w.u16(0);
+        w.u16(1);
+        w.u16(8);
+        w.0.extend_from_slice(&st);
+    }
+    w.0
+}
+
+pub const BASE_CP: u32 = 0xE000;
+pub const ADVANCE: i32 = 500;
+
+/// Font with `nbase` base glyphs (gid 1..=nbase for U+E000..), `nglyphs` glyphs, and the given features.
+pub fn build_font(nbase: u16, nglyphs: u16, feats: &[Feat]) -> Vec<u8> {
+    let mut tables: Vec<([u8; 4], Vec<u8>)> = Vec::new();
+    // head
+    let mut w = W(Vec::new());
+    w.u32(0x0001_0000);
+    w.u32(0x0001_0000);
+    w.u32(0);
+    w.u32(0x5F0F_3CF5);
+    w.u16(0);
+    w.u16(1000);
+    w.u32(0);
+    w.u32(0);
+    w.u32(0);
+    w.u32(0);
+    for _ in 0..4 {
+        w.i16(0);
+    }
+    w.u16(0);
+    w.u16(8);
+    w.i16(2);
+    w.i16(0);
+    w.i16(0);
+    tables.push((*b"head", w.0));
+    // hhea
+    let mut w = W(Vec::new());
+    w.u32(0x0001_0000);
+    w.i16(800);
+    w.i16(-200);
+    w.i16(0);
+    w.u16(ADVANCE as u16);
+    for _ in 0..11 {
+        w.i16(0);
+    }
+    w.u16(1);
+    tables.push((*b"hhea", w.0));
+    // maxp 0.5
+    let mut w = W(Vec::new());
+    w.u32(0x0000_5000);
+    w.u16(nglyphs);
+    tables.push((*b"maxp", w.0));
+    // hmtx
+    let mut w = W(Vec::new());
+    w.u16(ADVANCE as u16);
+    w.i16(0);
+    for _ in 1..nglyphs {
+        w.i16(0);
+    }
+    tables.push((*b"hmtx", w.0));
+    // cmap format 12
+    let mut w = W(Vec::new());
+    w.u16(0);
+    w.u16(1);
+    w.u16(3);
+    w.u16(10);
+    w.u32(12);
+    w.u16(12);
+    w.u16(0);
+    w.u32(16 + 12);
+    w.u32(0);
+    w.u32(1);
+    w.u32(BASE_CP);
+    w.u32(BASE_CP + nbase as u32 - 1);
+    w.u32(1);
+    tables.push((*b"cmap", w.0));
+    let gsub: Vec<&Feat> = feats.iter().filter(|f| !matches!(f.kind, Kind::Pos { .. })).collect();
+    let gpos: Vec<&Feat> = feats.iter().filter(|f| matches!(f.kind, Kind::Pos { .. })).collect();
+    if !gsub.is_empty() {
+        tables.push((*b"GSUB", layout_table(&gsub)));
+    }
+    if !gpos.is_empty() {
+        tables.push((*b"GPOS", layout_table(&gpos)));
+    }
+    tables.sort_by_key(|t| t.0);
+    let n = tables.len();
+    let mut out = W(Vec::new());
+    out.u32(0x0001_0000);
+    out.u16(n as u16);
+    out.u16(0);
+    out.u16(0);
+    out.u16(0);
+    let mut off = 12 + 16 * n;
+    for (t, d) in &tables {
+        out.tag(t);
+        out.u32(0);
+        out.u32(off as u32);
+        out.u32(d.len() as u32);
+        off += (d.len() + 3) & !3;
+    }
+    for (_, d) in &tables {
+        out.0.extend_from_slice(d);
+        while out.0.len() % 4 != 0 {
+            out.0.push(0);
+        }
+    }
+    out.0
+}
+
+fn tag4(s: &str) -> [u8; 4] {
+    let b = s.as_bytes();
+    [b[0], b[1], b[2], b[3]]
+}
+
+/// Font A: one feature per base glyph (glyph i+1 belongs to feature i).
+///   ss01 single, salt alt(5), liga single (default on), kern pos (default on), aalt alt(300), calt single
+///   (default on), ss02 single, smcp alt(2)
+fn font_a() -> (Vec<u8>, Vec<Feat>) {
+    let mut feats = Vec::new();
+    let names = ["ss01", "salt", "liga", "kern", "aalt", "calt", "ss02", "smcp"];
+    let mut next: u16 = 100;
+    for (i, n) in names.iter().enumerate() {
+        let g = i as u16 + 1;
+        let kind = match *n {
+            "salt" => Kind::Alt { glyphs: vec![g], firsts: vec![next], count: 5 },
+            "aalt" => Kind::Alt { glyphs: vec![g], firsts: vec![next], count: 300 },
+            "smcp" => Kind::Alt { glyphs: vec![g], firsts: vec![next], count: 2 },
+            "kern" => Kind::Pos { glyphs: vec![g], adv: 50 + i as i16 },
+            _ => Kind::Single { glyphs: vec![g], delta: (next - g) as i16 },
+        };
+        next += match *n {
+            "aalt" => 300,
+            _ => 10,
+        };
+        feats.push(Feat { tag: tag4(n), kind });
+    }
+    (build_font(names.len() as u16, next + 10, &feats), feats)
+}
+
+/// Font B: 40 alternate features f000..f039 (16 alternates each), feature i on base glyph i+1.
+fn font_b() -> (Vec<u8>, Vec<Feat>) {
+    let mut feats = Vec::new();
+    for i in 0..40u16 {
+        let tag = format!("f{:03}", i);
+        feats.push(Feat { tag: tag4(&tag), kind: Kind::Alt { glyphs: vec![i + 1], firsts: vec![100 + 20 * i], count: 16 } });
+    }
+    (build_font(40, 1000, &feats), feats)
+}
+
+/// Font C: two single features on the same glyphs: ss01: 1->2 ; ss02: 1->3, 2->4  (lookup order ss01, ss02)
+fn font_c() -> (Vec<u8>, Vec<Feat>) {
+    let feats = vec![
+        Feat { tag: *b"ss01", kind: Kind::Single { glyphs: vec![1], delta: 1 } },
+        Feat { tag: *b"ss02", kind: Kind::Single { glyphs: vec![1, 2], delta: 2 } },
+    ];
+    (build_font(1, 10, &feats), feats)
+}
+
+fn dumpfont_cmd(args: &[String]) {
+    let (d, _) = match args.get(1).map(|s| s.as_str()) {
+        Some("b") => font_b(),
+        Some("c") => font_c(),
+        _ => font_a(),
+    };
+    use std::io::Write;
+    std::io::stdout().write_all(&d).unwrap();
+}
+
+const DEFAULT_ON: &[&str] = &["abvm", "blwm", "ccmp", "locl", "mark", "mkmk", "rlig", "calt", "clig", "curs", "dist", "kern", "liga", "rclt", "rvrn"];
+
+fn default_on(tag: &[u8; 4]) -> bool {
+    DEFAULT_ON.iter().any(|t| t.as_bytes() == tag)
+}
+
+// ------------------------------------------------------------------------------------------------
+// plan dumps
+
+fn fmt_tag(t: u32) -> String {
+    t.to_string()
+}
+
+fn plan_line(label: &str, face: &Face, dir: Direction, script: Option<rustybuzz::Script>, feats: &[Feature]) {
+    let f2 = feats.to_vec();
+    // hb_font_t is not UnwindSafe-friendly by type, assert it
+    let res = catch(std::panic::AssertUnwindSafe(|| hook::plan_dump(face, dir, script, None, &f2)));
+    match res {
+        Ok(d) => {
+            let infos: Vec<String> = d.infos.iter().map(|(t, s, m, f, dv, fd)| format!("{}:{}:{}:{}:{}:{}", fmt_tag(*t), s, m, f, dv, *fd as u8)).collect();
+            let fs: Vec<String> = d.features.iter().map(|(t, s, m, o)| format!("{}:{}:{}:{}", fmt_tag(*t), s, m, o)).collect();
+            let um: Vec<String> = feats.iter().zip(d.user_masks.iter()).map(|(f, (m, s))| format!("{}:{}:{}", f.tag.0, m, s)).collect();
+            println!(
+                "plan {} simple={} infos={} gm={} feats={} um={}",
+                label,
+                d.simple as u8,
+                if infos.is_empty() { "-".into() } else { infos.join(",") },
+                d.global_mask,
+                if fs.is_empty() { "-".into() } else { fs.join(",") },
+                if um.is_empty() { "-".into() } else { um.join(",") }
+            );
+        }
+        Err(e) => println!("plan {} panic {}", label, e),
+    }
+}
+
+fn rand_value(r: &mut Rng) -> u32 {
+    match r.below(14) {
+        0 => 0,
+        1 | 2 | 3 => 1,
+        4 => 2,
+        5 => 3,
+        6 => 7,
+        7 => 8,
+        8 => 255,
+        9 => 256,
+        10 => 1000,
+        11 => u32::MAX,
+        _ => r.below(300) as u32,
+    }
+}
+
+fn rand_user_features(r: &mut Rng, tags: &[[u8; 4]], maxn: u64) -> Vec<Feature> {
+    let n = r.below(maxn + 1);
+    (0..n)
+        .map(|_| {
+            let tag = if r.chance(1, 12) { *b"zzzz" } else if r.chance(1, 8) { tag4(DEFAULT_ON[r.below(DEFAULT_ON.len() as u64) as usize]) } else { tags[r.below(tags.len() as u64) as usize] };
+            let (start, end) = match r.below(5) {
+                0 => (0, u32::MAX),
+                1 => (0, r.below(7) as u32),
+                2 => (r.below(7) as u32, u32::MAX),
+                _ => {
+                    let a = r.below(7) as u32;
+                    (a, a + r.below(5) as u32)
+                }
+            };
+            Feature { tag: Tag::from_bytes(&tag), value: rand_value(r), start, end }
+        })
+        .collect()
+}
+
+fn font_feature_tags(face: &Face) -> Vec<[u8; 4]> {
+    let mut out = Vec::new();
+    if let Some(t) = face.tables().gsub {
+        for f in t.features {
+            out.push(f.tag.to_bytes());
+        }
+    }
+    if let Some(t) = face.tables().gpos {
+        for f in t.features {
+            out.push(f.tag.to_bytes());
+        }
+    }
+    out.sort();
+    out.dedup();
+    if out.is_empty() {
+        out.push(*b"liga");
+    }
+    out
+}
+
+fn plan_cmd(args: &[String]) {
+    let seed = arg_u64(args, "--seed", 1);
+    let n = arg_u64(args, "--n", 600);
+    let mut r = Rng::new(seed);
+    let gens = [font_a().0, font_b().0, font_c().0];
+    let corpus = shp::corpus_fonts(&shp::repo_root());
+    let mut datas: Vec<(String, Vec<u8>)> = Vec::new();
+    for (i, g) in gens.iter().enumerate() {
+        datas.push((format!("gen{}", i), g.clone()));
+    }
+    // a deterministic sample of corpus fonts
+    let mut picked = 0;
+    let mut k = (seed as usize) % 7;
+    while picked < 12 && k < corpus.len() {
+        if let Ok(d) = std::fs::read(&corpus[k]) {
+            if Face::from_slice(&d, 0).map_or(false, |f| f.tables().gsub.is_some() || f.tables().gpos.is_some()) {
+                datas.push((corpus[k].rsplit('/').next().unwrap_or("?").to_string(), d));
+                picked += 1;
+            }
+        }
+        k += 37;
+    }
+    let scripts = [None, Some(rustybuzz::script::LATIN), Some(rustybuzz::script::ARABIC), Some(rustybuzz::script::DEVANAGARI), Some(rustybuzz::script::HANGUL)];
+    for i in 0..n {
+        let (label, data) = &datas[(i as usize) % datas.len()];
+        let Some(face) = Face::from_slice(data, 0) else { continue };
+        let tags = font_feature_tags(&face);
+        // small lists often, long lists (bit exhaustion) regularly
+        let maxn = match r.below(4) {
+            0 => 0,
+            1 => 3,
+            2 => 12,
+            _ => 45,
+        };
+        let feats = rand_user_features(&mut r, &tags, maxn);
+        let script = scripts[r.below(scripts.len() as u64) as usize];
+        let dir = match (script, r.below(6)) {
+            (Some(s), _) if s == rustybuzz::script::ARABIC => Direction::RightToLeft,
+            (_, 0) => Direction::TopToBottom,
+            (_, 1) => Direction::RightToLeft,
+            _ => Direction::LeftToRight,
+        };
+        plan_line(label, &face, dir, script, &feats);
+    }
+}
+
+// ------------------------------------------------------------------------------------------------
+// implementation-level predicate on generated fonts
+
+#[derive(Clone, Debug)]
+struct Case {
+    font: &'static str,
+    text: Vec<(u32, u32)>, // (base glyph index 0.., cluster)
+    feats: Vec<Feature>,
+    dir: Direction,
+    level: u8,
+}
+
+fn fmt_feature(f: &Feature) -> String {
+    let t = f.tag.to_bytes();
+    format!("{}[{}:{}]={}", String::from_utf8_lossy(&t), f.start, f.end, f.value)
+}
+
+fn fmt_case(c: &Case) -> String {
+    let t: Vec<String> = c.text.iter().map(|(g, k)| format!("{:X}:{}", BASE_CP + g, k)).collect();
+    let f: Vec<String> = c.feats.iter().map(fmt_feature).collect();
+    format!("font={} text={} feats={} dir={} level={}", c.font, t.join(","), if f.is_empty() { "-".into() } else { f.join(";") }, shp::dir_name(Some(c.dir)), c.level)
+}
+
+/// (gid, cluster, x_advance) per output glyph
+fn shape_case(face: &Face, c: &Case) -> Vec<(u32, u32, i32)> {
+    let mut b = UnicodeBuffer::new();
+    for (g, k) in &c.text {
+        b.add(char::from_u32(BASE_CP + g).unwrap(), *k);
+    }
+    b.set_direction(c.dir);
+    b.set_cluster_level(shp::level_of(c.level));
+    let gb = rustybuzz::shape(face, &c.feats, b);
+    gb.glyph_infos().iter().zip(gb.glyph_positions().iter()).map(|(i, p)| (i.glyph_id, i.cluster, p.x_advance)).collect()
+}
+
+/// The property's own reading of "the value of feature `tag` at cluster c": the (single) user feature of
+/// that tag decides inside its range; elsewhere (and without one) the default.
+fn value_at(feats: &[Feature], tag: &[u8; 4], c: u32) -> u32 {
+    let dflt = if default_on(tag) { 1 } else { 0 };
+    let mut v = dflt;
+    for f in feats {
+        if f.tag == Tag::from_bytes(tag) {
+            let global = f.start == 0 && f.end == u32::MAX;
+            if global || (f.start <= c && c < f.end) {
+                v = f.value;
+            }
+        }
+    }
+    v
+}
+
+/// Expected (gid, advance) of base glyph `g` (1-based gid) under the font's features at cluster c.
+/// `allocated(tag)`: whether the plan gave the feature a mask (features dropped for lack of bits do nothing).
+fn expected(featsdef: &[Feat], user: &[Feature], gid0: u16, c: u32, allocated: &dyn Fn(&[u8; 4]) -> bool) -> (u32, i32) {
+    let mut gid = gid0;
+    let mut adv = ADVANCE;
+    // GSUB lookups in lookup order = feature order in `featsdef` (GSUB ones), then GPOS
+    for f in featsdef {
+        let mut v = value_at(user, &f.tag, c);
+        if !allocated(&f.tag) {
+            v = 0;
+        }
+        match &f.kind {
+            Kind::Single { glyphs, delta } => {
+                if v != 0 && glyphs.contains(&gid) {
+                    gid = (gid as i32 + *delta as i32) as u16;
+                }
+            }
+            Kind::Alt { glyphs, firsts, count } => {
+                if let Some(i) = glyphs.iter().position(|x| *x == gid) {
+                    if v >= 1 && v <= *count as u32 {
+                        gid = firsts[i] + (v as u16 - 1);
+                    }
+                }
+            }
+            Kind::Pos { .. } => {}
+        }
+    }
+    for f in featsdef {
+        if let Kind::Pos { glyphs, adv: a } = &f.kind {
+            let mut v = value_at(user, &f.tag, c);
+            if !allocated(&f.tag) {
+                v = 0;
+            }
+            if v != 0 && glyphs.contains(&gid) {
+                adv += *a as i32;
+            }
+        }
+    }
+    (gid as u32, adv)
+}
+
+struct Stats {
+    evals: u64,
+    nontrivial: u64,
+    bad: u64,
+}
+
+/// Returns true when the case satisfies the predicate. `nontrivial` = some glyph expected to differ from
+/// the all-features-default result.
+fn check_case(face: &Face, featsdef: &[Feat], c: &Case, st: &mut Stats) -> bool {
+    st.evals += 1;
+    // which user features got a mask (hook): a tag is "allocated" when it is global-default or its get_mask != 0
+    let dump = catch(std::panic::AssertUnwindSafe(|| hook::plan_dump(face, c.dir, None, None, &c.feats)));
+    let dump = match dump {
+        Ok(d) => d,
+        Err(e) => {
+            st.bad += 1;
+            println!("fail kind=plan-panic:{} {}", e, fmt_case(c));
+            return false;
+        }
+    };
+    let mapped: Vec<u32> = dump.features.iter().map(|f| f.0).collect();
+    let allocated = |t: &[u8; 4]| mapped.contains(&Tag::from_bytes(t).0);
+    let out = catch(std::panic::AssertUnwindSafe(|| shape_case(face, c)));
+    let out = match out {
+        Ok(o) => o,
+        Err(e) => {
+            st.bad += 1;
+            println!("fail kind=shape-panic:{} {}", e, fmt_case(c));
+            return false;
+        }
+    };
+    if out.len() != c.text.len() {
+        st.bad += 1;
+        println!("fail kind=glyph-count {} got={:?}", fmt_case(c), out);
+        return false;
+    }
+    let rtl = c.dir == Direction::RightToLeft;
+    let mut ok = true;
+    let mut nontrivial = false;
+    for (i, (g, k)) in c.text.iter().enumerate() {
+        let o = if rtl { out[c.text.len() - 1 - i] } else { out[i] };
+        let (eg, ea) = expected(featsdef, &c.feats, *g as u16 + 1, *k, &allocated);
+        let (dg, da) = expected(featsdef, &[], *g as u16 + 1, *k, &|_| true);
+        if (eg, ea) != (dg, da) {
+            nontrivial = true;
+        }
+        if o.1 != *k || o.0 != eg || o.2 != ea {
+            ok = false;
+            println!("fail kind=range-value-predicate {} at={} cluster={} expected=gid{}+{} got=gid{}+{}@{}", fmt_case(c), i, k, eg, ea, o.0, o.2, o.1);
+            break;
+        }
+    }
+    // a dropped feature must really be out of bits: checked by the plan correspondence + theorem; here we
+    // only insist that a single user feature is never dropped
+    if c.feats.len() == 1 && c.feats[0].value != 0 {
+        let t = c.feats[0].tag.to_bytes();
+        if featsdef.iter().any(|f| f.tag == t) && !allocated(&t) {
+            ok = false;
+            println!("fail kind=single-feature-dropped {}", fmt_case(c));
+        }
+    }
+    if nontrivial {
+        st.nontrivial += 1;
+    }
+    if !ok {
+        st.bad += 1;
+    }
+    ok
+}
+
+fn clusters(scheme: u64, n: usize) -> Vec<u32> {
+    (0..n as u32)
+        .map(|i| match scheme {
+            0 => i,
+            1 => i / 2,
+            2 => 2 * i + 1,
+            _ => i + 5,
+        })
+        .collect()
+}
+
+fn api_cmd(args: &[String]) {
+    let seed = arg_u64(args, "--seed", 1);
+    let all_values = arg_str(args, "--values") == Some("all");
+    let nrand = arg_u64(args, "--n", 3000);
+    let mut r = Rng::new(seed);
+    let mut st = Stats { evals: 0, nontrivial: 0, bad: 0 };
+    let max_report = 12;
+    // ---- T1: one feature, own glyph, exhaustive (start, end) over texts of length <= 6
+    let (da, fa) = font_a();
+    let face_a = Face::from_slice(&da, 0).expect("font A parses");
+    let values: Vec<u32> = if all_values { (0..=255).collect() } else { vec![0, 1, 2, 3, 5, 6, 255] };
+    let mut tags: Vec<([u8; 4], u32)> = fa.iter().enumerate().map(|(i, f)| (f.tag, i as u32)).collect();
+    tags.push((*b"zzzz", 0));
+    'outer: for (tag, gi) in &tags {
+        for n in 1..=6usize {
+            for s in 0..=(n as u32 + 1) {
+                let mut ends: Vec<u32> = (0..=(n as u32 + 1)).collect();
+                ends.push(u32::MAX);
+                ends.push(u32::MAX - 1);
+                for e in ends {
+                    for &v in &values {
+                        let scheme = if all_values { 0 } else { (s as u64 + e as u64 + v as u64 + n as u64) % 4 };
+                        let cl = clusters(scheme, n);
+                        let c = Case {
+                            font: "A",
+                            text: cl.iter().map(|k| (*gi, *k)).collect(),
+                            feats: vec![Feature { tag: Tag::from_bytes(tag), value: v, start: s, end: e }],
+                            dir: if (s + e.wrapping_add(v)) % 3 == 0 { Direction::RightToLeft } else { Direction::LeftToRight },
+                            level: ((s + v) % 3) as u8,
+                        };
+                        check_case(&face_a, &fa, &c, &mut st);
+                        if st.bad >= max_report {
+                            break 'outer;
+                        }
+                    }
+                }
+            }
+        }
+    }
+    let t1 = st.evals;
+    // ---- T2: several simultaneous features (fonts A, B, C), mixed texts, up to mask exhaustion
+    let (db, fb) = font_b();
+    let face_b = Face::from_slice(&db, 0).expect("font B parses");
+    let (dc, fc) = font_c();
+    let face_c = Face::from_slice(&dc, 0).expect("font C parses");
+    for it in 0..nrand {
+        if st.bad >= max_report {
+            break;
+        }
+        let which = it % 3;
+        let (face, fd, name, nbase): (&Face, &Vec<Feat>, &'static str, u32) = match which {
+            0 => (&face_a, &fa, "A", fa.len() as u32),
+            1 => (&face_b, &fb, "B", 40),
+            _ => (&face_c, &fc, "C", 1),
+        };
+        // distinct tags, each at most once
+        let mut avail: Vec<[u8; 4]> = fd.iter().map(|f| f.tag).collect();
+        avail.push(*b"zzzz");
+        let k = match which {
+            1 => 1 + r.below(34),
+            _ => 1 + r.below(avail.len() as u64),
+        };
+        let mut feats = Vec::new();
+        for _ in 0..k {
+            if avail.is_empty() {
+                break;
+            }
+            let i = r.below(avail.len() as u64) as usize;
+            let tag = avail.swap_remove(i);
+            let (start, end) = match r.below(6) {
+                0 => (0, u32::MAX),
+                1 => (r.below(5) as u32, u32::MAX),
+                _ => {
+                    let a = r.below(7) as u32;
+                    (a, a + r.below(6) as u32)
+                }
+            };
+            let value = match (which, r.below(6)) {
+                (_, 0) => 0,
+                (1, 1) => 255,
+                (1, _) => 1 + r.below(17) as u32,
+                (_, 1) => 2 + r.below(5) as u32,
+                (0, 2) => 255,
+                _ => 1,
+            };
+            feats.push(Feature { tag: Tag::from_bytes(&tag), value, start, end });
+        }
+        let n = 1 + r.below(7) as usize;
+        let cl = clusters(r.below(4), n);
+        // text: glyphs of the features in play (and a few others)
+        let text: Vec<(u32, u32)> = cl
+            .iter()
+            .map(|kk| {
+                let g = if r.chance(3, 4) && !feats.is_empty() {
+                    let t = feats[r.below(feats.len() as u64) as usize].tag.to_bytes();
+                    fd.iter().position(|f| f.tag == t).map(|p| match &fd[p].kind {
+                        Kind::Single { glyphs, .. } | Kind::Alt { glyphs, .. } | Kind::Pos { glyphs, .. } => glyphs[0] as u32 - 1,
+                    }).unwrap_or(0)
+                } else {
+                    r.below(nbase as u64) as u32
+                };
+                (g.min(nbase - 1), *kk)
+            })
+            .collect();
+        let c = Case { font: name, text, feats, dir: if r.chance(1, 4) { Direction::RightToLeft } else { Direction::LeftToRight }, level: r.below(3) as u8 };
+        check_case(face, fd, &c, &mut st);
+    }
+    println!("api-summary evaluations={} nontrivial={} bad={} t1={} t2={}", st.evals, st.nontrivial, st.bad, t1, st.evals - t1);
+}
+
+// ------------------------------------------------------------------------------------------------
+// corpus fonts: features whose lookups are all single (type 1) or all alternate (type 3) substitutions
+
+struct CorpusFeature {
+    tag: [u8; 4],
+    alternate: bool,
+}
+
+fn simple_features(face: &Face) -> Vec<CorpusFeature> {
+    use rustybuzz::ttf_parser::gsub::SubstitutionSubtable as S;
+    let mut out = Vec::new();
+    let Some(gsub) = face.tables().gsub else { return out };
+    let mut seen: Vec<[u8; 4]> = Vec::new();
+    for f in gsub.features {
+        let tag = f.tag.to_bytes();
+        if seen.contains(&tag) {
+            // several feature records with one tag (per script/language): skip the tag altogether
+            out.retain(|x: &CorpusFeature| x.tag != tag);
+            continue;
+        }
+        seen.push(tag);
+        let mut singles = 0;
+        let mut alts = 0;
+        let mut other = 0;
+        for li in f.lookup_indices {
+            let Some(l) = gsub.lookups.get(li) else {
+                other += 1;
+                continue;
+            };
+            for st in l.subtables.into_iter::<S>() {
+                match st {
+                    S::Single(_) => singles += 1,
+                    S::Alternate(_) => alts += 1,
+                    _ => other += 1,
+                }
+            }
+        }
+        if other == 0 && (singles > 0) != (alts > 0) {
+            out.push(CorpusFeature { tag, alternate: alts > 0 });
+        }
+    }
+    out
+}
+
+fn corpus_shape(face: &Face, ch: char, n: usize, feats: &[Feature], level: u8) -> Vec<(u32, u32)> {
+    let mut b = UnicodeBuffer::new();
+    for i in 0..n {
+        b.add(ch, i as u32);
+    }
+    b.set_direction(Direction::LeftToRight);
+    b.set_script(rustybuzz::script::LATIN);
+    b.set_cluster_level(shp::level_of(level));
+    let gb = rustybuzz::shape(face, feats, b);
+    gb.glyph_infos().iter().map(|i| (i.glyph_id, i.cluster)).collect()
+}
+
+fn corpus_cmd(args: &[String]) {
+    let seed = arg_u64(args, "--seed", 1);
+    let per_font = arg_u64(args, "--per-font", 40);
+    let max_fonts = arg_u64(args, "--fonts", 10_000);
+    let mut r = Rng::new(seed);
+    let mut st = Stats { evals: 0, nontrivial: 0, bad: 0 };
+    let mut fonts_used = 0;
+    let mut alt_cases = 0u64;
+    // every other default feature is switched off globally, so that the feature under test is the only
+    // optional lookup source (value 0 features allocate nothing)
+    let off: Vec<Feature> = DEFAULT_ON.iter().chain(["frac", "numr", "dnom"].iter()).map(|t| Feature { tag: Tag::from_bytes(&tag4(t)), value: 0, start: 0, end: u32::MAX }).collect();
+    for path in shp::corpus_fonts(&shp::repo_root()) {
+        if fonts_used >= max_fonts || st.bad >= 10 {
+            break;
+        }
+        let Ok(data) = std::fs::read(&path) else { continue };
+        let Some(face) = Face::from_slice(&data, 0) else { continue };
+        let sf = simple_features(&face);
+        if sf.is_empty() {
+            continue;
+        }
+        let chars: Vec<char> = ('a'..='z').chain('A'..='Z').chain('0'..='9').filter(|c| face.glyph_index(*c).is_some()).collect();
+        if chars.is_empty() {
+            continue;
+        }
+        let mut used = false;
+        let mut budget = per_font;
+        for f in &sf {
+            if default_on(&f.tag) || budget == 0 {
+                continue;
+            }
+            let tag = Tag::from_bytes(&f.tag);
+            // find a character the feature changes (value 1 globally vs off), context-free
+            let mut hit = None;
+            for &ch in &chars {
+                let mut fs = off.clone();
+                let base = match catch(std::panic::AssertUnwindSafe(|| corpus_shape(&face, ch, 3, &fs, 1))) {
+                    Ok(b) => b,
+                    Err(_) => continue,
+                };
+                fs.push(Feature { tag, value: 1, start: 0, end: u32::MAX });
+                let on = match catch(std::panic::AssertUnwindSafe(|| corpus_shape(&face, ch, 3, &fs, 1))) {
+                    Ok(b) => b,
+                    Err(_) => continue,
+                };
+                let uniform = |v: &Vec<(u32, u32)>| v.len() == 3 && v.iter().all(|x| x.0 == v[0].0) && v.iter().enumerate().all(|(i, x)| x.1 == i as u32);
+                if uniform(&base) && uniform(&on) && base[0].0 != on[0].0 {
+                    hit = Some((ch, base[0].0, on[0].0));
+                    break;
+                }
+            }
+            let Some((ch, g_off, g_on)) = hit else { continue };
+            used = true;
+            // per-value expectation for alternates: shape with the global value (context-free)
+            let vals: Vec<u32> = if f.alternate { vec![0, 1, 2, 3] } else { vec![0, 1, 2] };
+            for &v in &vals {
+                let mut fs = off.clone();
+                fs.push(Feature { tag, value: v, start: 0, end: u32::MAX });
+                let glob = match catch(std::panic::AssertUnwindSafe(|| corpus_shape(&face, ch, 1, &fs, 1))) {
+                    Ok(b) if b.len() == 1 => b[0].0,
+                    _ => continue,
+                };
+                // independent reading of the alternate set: value k selects the k-th alternate of the set
+                let mut want_g = if v == 0 { g_off } else { glob };
+                if f.alternate {
+                    if let Some(k) = kth_alternate(&face, &f.tag, g_off, v) {
+                        want_g = k;
+                        alt_cases += 1;
+                    }
+                } else if v >= 1 {
+                    want_g = g_on;
+                }
+                if glob != want_g {
+                    st.bad += 1;
+                    println!("fail kind=corpus-global-value font={} feature={} char={} value={} expected=gid{} got=gid{}", path, String::from_utf8_lossy(&f.tag), ch, v, want_g, glob);
+                    continue;
+                }
+                for _ in 0..3 {
+                    if budget == 0 {
+                        break;
+                    }
+                    budget -= 1;
+                    let n = 1 + r.below(6) as usize;
+                    let s = r.below(n as u64 + 1) as u32;
+                    let e = if r.chance(1, 6) { u32::MAX } else { s + r.below(n as u64 + 2 - s as u64) as u32 };
+                    let level = r.below(3) as u8;
+                    let mut fs = off.clone();
+                    fs.push(Feature { tag, value: v, start: s, end: e });
+                    st.evals += 1;
+                    let got = match catch(std::panic::AssertUnwindSafe(|| corpus_shape(&face, ch, n, &fs, level))) {
+                        Ok(g) => g,
+                        Err(e2) => {
+                            st.bad += 1;
+                            println!("fail kind=corpus-panic:{} font={} feature={}[{}:{}]={} char={} n={}", e2, path, String::from_utf8_lossy(&f.tag), s, e, v, ch, n);
+                            continue;
+                        }
+                    };
+                    let global = s == 0 && e == u32::MAX;
+                    let want: Vec<(u32, u32)> = (0..n as u32).map(|c| (if global || (s <= c && c < e) { want_g } else { g_off }, c)).collect();
+                    if want.iter().any(|x| x.0 != g_off) {
+                        st.nontrivial += 1;
+                    }
+                    if got != want {
+                        st.bad += 1;
+                        println!("fail kind=corpus-range-value-predicate font={} feature={}[{}:{}]={} char={} n={} level={} expected={:?} got={:?}", path, String::from_utf8_lossy(&f.tag), s, e, v, ch, n, level, want, got);
+                    }
+                }
+            }
+        }
+        if used {
+            fonts_used += 1;
+        }
+    }
+    println!("corpus-summary fonts={} evaluations={} nontrivial={} alternates_read={} bad={}", fonts_used, st.evals, st.nontrivial, alt_cases, st.bad);
+}
+
+/// The k-th (1-based) alternate of glyph `g` in the first alternate lookup of feature `tag` covering g; k = 0
+/// or k beyond the set leaves the glyph. None when the font's tables do not give a unique answer.
+fn kth_alternate(face: &Face, tag: &[u8; 4], g: u32, k: u32) -> Option<u32> {
+    use rustybuzz::ttf_parser::gsub::SubstitutionSubtable as S;
+    use rustybuzz::ttf_parser::GlyphId;
+    let gsub = face.tables().gsub?;
+    let f = gsub.features.into_iter().find(|f| f.tag.to_bytes() == *tag)?;
+    let mut found: Option<u32> = None;
+    let mut hits = 0;
+    for li in f.lookup_indices {
+        let l = gsub.lookups.get(li)?;
+        for st in l.subtables.into_iter::<S>() {
+            if let S::Alternate(a) = st {
+                if let Some(ci) = a.coverage.get(GlyphId(g as u16)) {
+                    hits += 1;
+                    let set = a.alternate_sets.get(ci)?;
+                    found = Some(if k == 0 { g } else { set.alternates.get((k - 1) as u16).map(|x| x.0 as u32).unwrap_or(g) });
+                }
+            }
+        }
+    }
+    if hits == 1 {
+        found
+    } else {
+        None
+    }
 }
